@@ -379,6 +379,72 @@ func Barrier() {
 	time.Sleep(time.Duration(1))
 }
 
+// Pool replaces sync.Pool in instrumented code.  sync.Pool hands out a pooled or a new object
+// depending on the P the caller runs on and on garbage collections — nondeterminism the
+// simulator does not control.  This pool makes the same legal choices from the seed: Get returns
+// the most recently pooled object 7 times out of 8 (when there is one), otherwise a new one;
+// pools are emptied at the start of every run.
+type Pool struct {
+	New func() any
+
+	mu    sync.Mutex
+	items []any
+	gets  uint64
+	reg   bool
+}
+
+var (
+	poolsMu sync.Mutex
+	pools   []*Pool
+)
+
+func (p *Pool) register() {
+	if !p.reg {
+		p.reg = true
+		poolsMu.Lock()
+		pools = append(pools, p)
+		poolsMu.Unlock()
+	}
+}
+
+func (p *Pool) Get() any {
+	p.mu.Lock()
+	p.register()
+	p.gets++
+	var x any
+	if n := len(p.items); n > 0 && Hash(cfg.Seed, 0x9001, p.gets)%8 != 0 {
+		x = p.items[n-1]
+		p.items = p.items[:n-1]
+	}
+	p.mu.Unlock()
+	if x == nil && p.New != nil {
+		x = p.New()
+	}
+	return x
+}
+
+func (p *Pool) Put(x any) {
+	if x == nil {
+		return
+	}
+	p.mu.Lock()
+	p.register()
+	p.items = append(p.items, x)
+	p.mu.Unlock()
+}
+
+// ResetPools empties every pool (start of a run: a freshly started process has empty pools).
+func ResetPools() {
+	poolsMu.Lock()
+	ps := append([]*Pool(nil), pools...)
+	poolsMu.Unlock()
+	for _, p := range ps {
+		p.mu.Lock()
+		p.items, p.gets = nil, 0
+		p.mu.Unlock()
+	}
+}
+
 // Mutex replaces sync.Mutex in instrumented code.
 type Mutex struct{ mu sync.Mutex }
 
